@@ -12,7 +12,9 @@ Oracle : the load returns a module or raises LexerError / ParseError.  Any other
 """
 import glob
 import itertools
+import json
 import os
+import time
 import traceback
 
 from hypothesis import given, seed as hseed, settings, HealthCheck, Phase
@@ -199,6 +201,71 @@ def random_texts(acc, n, seed):
     body()
 
 
+def atheris_shard(acc, seed, runs, use_corpus):
+    """Coverage-guided fuzzing (atheris/libFuzzer) of the same oracle, one process.
+    use_corpus=False starts from an empty corpus, True from tests/data + replays."""
+    import shutil
+    import subprocess
+    import sys
+    from vlib.runner import VERIF
+    work = os.path.join(VERIF, ".work", f"atheris-{seed}-{int(use_corpus)}")
+    shutil.rmtree(work, ignore_errors=True)
+    corpus_dir = os.path.join(work, "corpus")
+    os.makedirs(corpus_dir)
+    if use_corpus:
+        n = 0
+        for t in corpus():
+            for v in range(len(PARSERS)):
+                n += 1
+                with open(os.path.join(corpus_dir, f"seed{n}"), "wb") as f:
+                    f.write(bytes([v]) + t[:600].encode("utf-8", "surrogatepass"))
+        rdir = os.path.join(VERIF, "replays", "C06")
+        for fn in sorted(os.listdir(rdir)) if os.path.isdir(rdir) else []:
+            rec = json.load(open(os.path.join(rdir, fn)))["case"]
+            with open(os.path.join(corpus_dir, "r" + fn), "wb") as f:
+                f.write(bytes([PARSERS.index(rec["variant"])]) +
+                        rec["text"].encode("utf-8", "surrogatepass"))
+    env = dict(os.environ)
+    cmd = [sys.executable, "-m", "vlib.fuzz_c06", work, corpus_dir,
+           f"-runs={runs}", "-max_len=400", f"-seed={seed}", "-print_final_stats=0",
+           f"-artifact_prefix={work}/", "-timeout=60", "-rss_limit_mb=4096"]
+    budget = max(30, int(acc.deadline - time.time())) if acc.deadline else 600
+    try:
+        p = subprocess.run(cmd, cwd=VERIF, env=env, capture_output=True, text=True,
+                           timeout=budget)
+        out = (p.stdout or "") + (p.stderr or "")
+    except subprocess.TimeoutExpired as e:
+        out = "timeout"
+        acc.notes["budget_exhausted"] = 1
+    if "No module named" in out and "atheris" in out:
+        acc.event("atheris:unavailable")
+        shutil.rmtree(work, ignore_errors=True)
+        return
+    n = 0
+    try:
+        n = int(open(os.path.join(work, "count")).read().split()[0])
+    except Exception:
+        pass
+    acc.evaluations += n
+    acc.event("atheris:executions", n)
+    acc.event("atheris:corpus" if use_corpus else "atheris:empty-corpus")
+    fpath = os.path.join(work, "failures.jsonl")
+    if os.path.exists(fpath):
+        for line in open(fpath):
+            rec = json.loads(line)
+            acc.fail(rec["signature"], dict(variant=rec["variant"], text=rec["text"]),
+                     rec["detail"])
+    crashes = [f for f in os.listdir(work) if f.startswith(("crash-", "timeout-", "oom-"))]
+    for c in crashes:
+        data = open(os.path.join(work, c), "rb").read()
+        if len(data) >= 2:
+            variant = PARSERS[data[0] % len(PARSERS)]
+            text = data[1:].decode("utf-8", "replace")
+            acc.fail(f"C06/{variant}/libfuzzer-{c.split('-')[0]}",
+                     dict(variant=variant, text=text), f"libFuzzer artifact {c}")
+    shutil.rmtree(work, ignore_errors=True)
+
+
 def shards(tier, seed):
     out = []
     L = 3 if tier == "quick" else 5
@@ -229,6 +296,9 @@ def shards(tier, seed):
     for j in range(16):
         out.append(("random_texts", dict(n=n, seed=seed * 1000 + j)))
     if tier == "thorough":
+        for j in range(8):
+            out.append(("atheris_shard", dict(seed=seed * 100 + j + 1, runs=400000,
+                                              use_corpus=bool(j % 2))))
         for a in VOCAB:
             for b in VOCAB:
                 out.append(("exhaustive_tokens",
